@@ -377,3 +377,48 @@ def check_c14(tier, seed, log=print):
     run.assumptions += ['extras are a constant carried along (the token types have no extras-mutating callbacks)',
                         'api_in_range is proved for ordinary lexers; partial lexers are covered by the correspondence only']
     return run.finish()
+
+
+def partial_api_histories(run, tier, log=print):
+    """C07 through the public API: a partial lexer that is morphed, cloned or wrapped by spanned() must stay partial.
+    Directed histories on the real Lexer (two builds) against the Lean pool model (Api.lean, is_prefix carried along)."""
+    bins = build_libcheck([c for c in LIBCFG[tier] if c[0] in ('dbg', 'rel_safe')])
+    enums = libcheck_enums()
+    caps = P.run_capture([enums['TokA'], enums['TokB']])
+    if any(c is None or c.verdict != 'ACCEPT' for c in caps):
+        run.violation('setup', dict(what='libcheck token types not accepted by the derive'), no_input=True)
+        return dict(evaluations=0)
+    reqs = []
+    for src in ['ab', 'ab 12', 'x1 y2', 'hello world 42', 'a', 'ab  cd é', '12ab']:
+        hx = P.hexs(src.encode('utf-8'))
+        for j in (0, 1, 2):
+            for first in ('next', 'snext'):
+                pre = [first, '0'] * j
+                reqs.append('API %s 1 %s' % (hx, ' '.join(pre + ['morph', '0', first, '0', first, '0', 'morph', '0', first, '0'])))
+                reqs.append('API %s 1 %s' % (hx, ' '.join(pre + ['clone', '0', 'morph', '1', first, '1', first, '0', first, '1'])))
+    lines = ['CASE A'] + caps[0].dump
+    for i, l in enumerate(caps[0].leaves):
+        if l[3] == 'Ws':
+            lines.append('CB %d 3' % i)
+    lines += ['CASE B'] + caps[1].dump
+    for rq in reqs:
+        t = rq.split(' ')
+        lines.append('Q API A B %s %s %s' % (t[1], t[2], ' '.join(t[3:])))
+    ans = P.run_lean(lines, nproc=0)
+    n = bad = 0
+    for name, (binp, err) in bins.items():
+        if binp is None:
+            run.violation('libcheck-build', dict(config=name, stderr=err), no_input=True)
+            continue
+        out, rc = run_lib(binp, reqs)
+        for rq in reqs:
+            t = rq.split(' ')
+            mv = ans.get('B API A B %s %s %s' % (t[1], t[2], ' '.join(t[3:])))
+            v = out.get(rq)
+            n += 1
+            if mv is not None and v != mv:
+                bad += 1
+                run.violation('partial-api', dict(config=name, request=rq, observed=v, model=mv,
+                                                  what='a partial lexer handled through morph / clone / spanned behaves differently from the model, in which the partial flag travels with the lexer (it commits an item the buffer does not determine, or stops waiting)'),
+                              key='papi|' + rq)
+    return dict(evaluations=n, failures=bad)
